@@ -211,6 +211,19 @@ func c20Run(c c20Case) []*core.Violation {
 		if se.Msg() != m {
 			vs = append(vs, core.V("wrong-msg", "%s: SendError.Msg() is not the affected message", where))
 		}
+		if se.MessageID() != m.GetMessageID() {
+			vs = append(vs, core.V("wrong-msg", "%s: SendError.MessageID()=%q, the affected message has %q", where, se.MessageID(), m.GetMessageID()))
+		}
+		// errors.Is against a SendError value that names a step: a caller can only build a permanent one
+		// (the temporariness is not settable from outside), so it matches exactly the permanent failures
+		// of that step - through Msg.SendError() and through the joined error of the whole call
+		for _, r := range []mail.SendErrReason{mail.ErrSMTPMailFrom, mail.ErrSMTPRcptTo, mail.ErrSMTPData, mail.ErrSMTPDataClose, mail.ErrSMTPReset, mail.ErrWriteContent, mail.ErrConnCheck, mail.ErrNoUnencoded, mail.ErrGetSender, mail.ErrGetRcpts, mail.ErrAmbiguous} {
+			want := r == wantReason && expect.Code/100 == 5
+			if got := errors.Is(m.SendError(), &mail.SendError{Reason: r}); got != want {
+				vs = append(vs, core.V("wrong-is", "%s: errors.Is(Msg.SendError(), &SendError{Reason: %q}) = %v, expected %v", where, r, got, want))
+				break
+			}
+		}
 		// recipients listed
 		text := se.Error()
 		var listed []string
